@@ -104,7 +104,7 @@ Proof.
   - inversion H; subst. split; [apply only_adds_refl|auto].
   - destruct (fs_get x f) as [[c|]|] eqn:E.
     + rewrite fold_res_exn in H by reflexivity. discriminate.
-    + destruct (IH _ _ H) as [H1 H2]. split; auto. intros q Hq. apply H2. tauto.
+    + destruct (IH _ _ H) as [H1 H2]. split; [exact H1|]. intros q Hq. apply H2. tauto.
     + destruct (IH _ _ H) as [H1 H2]. split.
       * intros q n Hq. apply H1. destruct (fpath_eq_dec x q) as [->|Hne]; [congruence|].
         rewrite fs_get_set_other; auto.
@@ -170,8 +170,8 @@ Proof. reflexivity. Qed.
 Lemma under_two_job_dirs : forall id id' q,
   is_prefix (job_dir id) q = true -> is_prefix (job_dir id') q = true -> id = id'.
 Proof.
-  intros id id' q H1 H2. apply is_prefix_spec in H1, H2. destruct H1 as [r1 ->], H2 as [r2 H2].
-  rewrite !job_dir_eq in H2. simpl in H2. inversion H2. reflexivity.
+  intros id id' q H1 H2. apply is_prefix_spec in H1, H2. destruct H1 as [r1 E1], H2 as [r2 E2].
+  rewrite E1 in E2. rewrite !job_dir_eq in E2. simpl in E2. inversion E2. reflexivity.
 Qed.
 
 Lemma under_job_dir_not_ws : forall id q, is_prefix (job_dir id) q = true -> q <> WS.
@@ -196,9 +196,9 @@ Proof. intros id d q _. left. reflexivity. Qed.
 
 Lemma touches_only_trans : forall id a b c, touches_only id a b -> touches_only id b c -> touches_only id a c.
 Proof.
-  intros id a b c H1 H2 q Hq. destruct (H1 q Hq) as [E1|[-> E1]], (H2 q Hq) as [E2|[E2 E2']].
+  intros id a b c H1 H2 q Hq. destruct (H1 q Hq) as [E1|[Eq E1]]; destruct (H2 q Hq) as [E2|[E2 E2']].
   - left. congruence.
-  - right. subst q. split; auto. congruence.
+  - right. split; auto. congruence.
   - right. auto.
   - right. auto.
 Qed.
@@ -210,9 +210,10 @@ Proof.
   - destruct (parse_file o c) as [v| |]; simpl in H; try discriminate.
     destruct (str_eqb (job_id_of o v) id); inversion H; subst. apply touches_only_refl.
   - discriminate.
-  - destruct (fs_mkdir_p (job_dir id) d) as [d1| |] eqn:Em; simpl in H; try discriminate.
-    inversion H; subst d'. clear H. destruct (fs_mkdir_p_spec _ _ _ Em) as [Hadd Hoth].
-    intros q Hq. rewrite fs_get_set_other by (apply not_prefix_neq_app; exact Hq).
+  - destruct (fs_mkdir_p (job_dir id) d) as [d1| |] eqn:Em; cbn [rbind] in H; try discriminate.
+    injection H as H. subst d'. destruct (fs_mkdir_p_spec _ _ _ Em) as [Hadd Hoth].
+    intros q Hq.
+    rewrite (fs_get_set_other (job_dir id ++ [FN_SP]) q) by (apply (not_prefix_neq_app (job_dir id) q [FN_SP]); exact Hq).
     destruct (in_dec fpath_eq_dec q (prefixes (job_dir id))) as [Hin|Hnin].
     + rewrite prefixes_job_dir in Hin. destruct Hin as [<-|[<-|[]]].
       * destruct (fs_get WS d) as [n|] eqn:Ew; [left; apply Hadd; exact Ew | right; auto].
@@ -255,12 +256,13 @@ Proof.
   destruct (fs_get [S "workspace"; id] d); split; intro H; congruence.
 Qed.
 
-Lemma import_frame_step : forall o tree sp d0 d d' e,
+Lemma import_frame_step : forall o tree sp id' d0 d d' e,
+  is_job_id id' = true ->
   import_frame d0 d ->
-  copy_to_job_workspace o tree sp (job_id_of o sp) d = ROk (d', e) ->
+  copy_to_job_workspace o tree sp id' d = ROk (d', e) ->
   import_frame d0 d'.
 Proof.
-  intros o tree sp d0 d d' e [Ha Hb] Hc. set (id' := job_id_of o sp) in *.
+  intros o tree sp id' d0 d d' e Hid [Ha Hb] Hc.
   destruct (copy_touches _ _ _ _ _ _ _ Hc) as [Ht Hd].
   destruct Hd as [->|Hnew]; [split; assumption|].
   split.
@@ -273,13 +275,269 @@ Proof.
     { destruct (is_prefix (job_dir id') q) eqn:E; auto. exfalso. apply Hne. eapply under_two_job_dirs; eauto. }
     destruct (Ht q Hq') as [E|[E _]]; [exact E|]. exfalso. eapply under_job_dir_not_ws; eauto.
   - intros q Hq. destruct (is_prefix (job_dir id') q) eqn:E.
-    + right. exists id'. split; [apply job_id_shape|exact E].
+    + right. exists id'. split; [exact Hid|exact E].
     + destruct (Ht q E) as [E1|[-> E1]].
       * apply Hb. congruence.
       * destruct (fs_get WS d0) as [n|] eqn:E0.
-        -- exfalso. destruct (fpath_eq_dec (fs_get WS d) (fs_get WS d0)) as [E2|E2].
-           ++ congruence.
-           ++ destruct (Hb WS) as [[_ E3]|[id [_ E3]]]; [congruence|congruence|].
-              eapply under_job_dir_not_ws; eauto.
+        -- exfalso. destruct (Hb WS) as [[_ E3]|[id [_ E3]]]; [congruence|congruence|].
+           eapply under_job_dir_not_ws; eauto.
         -- left. auto.
+Qed.
+
+(* ------------------------------------------------------------------ loops *)
+Lemma fold_partial2_inv : forall A B (P : A -> Prop) (step : A -> B -> res (A * option exn)) l a0,
+  P a0 -> (forall a x a' e, In x l -> P a -> step a x = ROk (a', e) -> P a') ->
+  P (p_val (fold_partial2 step l a0)).
+Proof.
+  intros A B P step l a0 H0 Hstep. unfold fold_partial2.
+  set (acc0 := {| p_exn := None; p_ood := false; p_val := a0 |}).
+  assert (H : P (p_val acc0)) by exact H0. clearbody acc0. revert acc0 H.
+  induction l as [|x l IH]; simpl; intros acc H; auto.
+  apply IH.
+  - intros a y a' e Hy. apply Hstep. right. exact Hy.
+  - destruct (p_exn acc); [exact H|]. destruct (p_ood acc); [exact H|].
+    destruct (step (p_val acc) x) as [[a' e]| |] eqn:E; simpl; auto.
+    eapply Hstep; eauto. left. reflexivity.
+Qed.
+
+(* every mapping produced by the analysers carries the id of its state point *)
+Lemma analyse_ids : forall o sf skipped adds names dst0 maps,
+  analyse o sf skipped adds names dst0 = ROk maps ->
+  forall m, In m maps -> snd m = job_id_of o (snd (fst m)).
+Proof.
+  intros o sf skipped adds names dst0 maps H. unfold analyse in H.
+  match type of H with (do r <- ?F; _) = _ => destruct F as [[maps0 skip0]| |] eqn:EF end; simpl in H; try discriminate.
+  assert (Hinv : forall m, In m maps0 -> snd m = job_id_of o (snd (fst m))).
+  { clear H. revert EF.
+    match goal with |- fold_left ?step names ?init = _ -> _ => set (st := step) end.
+    assert (Hgen : forall l acc ms sk, fold_left st l acc = ROk (ms, sk) ->
+              (forall ms0 sk0, acc = ROk (ms0, sk0) -> forall m, In m ms0 -> snd m = job_id_of o (snd (fst m))) ->
+              forall m, In m ms -> snd m = job_id_of o (snd (fst m))).
+    { induction l as [|name l IH]; simpl; intros acc ms sk Hf Hacc.
+      - eapply Hacc; eauto.
+      - eapply IH; [exact Hf|]. intros ms1 sk1 Hst. unfold st in Hst.
+        destruct acc as [[ms0 sk0]| |]; simpl in Hst; try discriminate.
+        specialize (Hacc ms0 sk0 eq_refl).
+        destruct (skipped name sk0).
+        + inversion Hst; subst. exact Hacc.
+        + destruct (sf name) as [[v|]| |]; simpl in Hst; try discriminate.
+          * match type of Hst with (if ?c then _ else _) = _ => destruct c end; [discriminate|].
+            inversion Hst; subst. intros m Hm. apply in_app_or in Hm. destruct Hm as [Hm|[<-|[]]].
+            -- apply filter_In in Hm. apply Hacc. tauto.
+            -- reflexivity.
+          * inversion Hst; subst. exact Hacc. }
+    intros EF. eapply Hgen; [exact EF|]. intros ms0 sk0 E. inversion E; subst. intros m []. }
+  destruct (has_dup (List.map snd maps0)); [discriminate|]. inversion H; subst. exact Hinv.
+Qed.
+
+Theorem import_tar_frame : forall o sch ms d0, import_frame d0 (io_dst (import_tar o sch ms d0)).
+Proof.
+  intros o sch ms d0. unfold import_tar.
+  match goal with |- context [analyse ?a ?b ?c ?d ?e ?f] => destruct (analyse a b c d e f) as [maps| |] eqn:Ea end;
+    simpl; try apply import_frame_refl.
+  destruct (tar_extract ms) as [tmp| |]; simpl; try apply import_frame_refl.
+  apply (fold_partial2_inv _ _ (fun d => import_frame d0 d)).
+  - apply import_frame_refl.
+  - intros d [[path sp] id] d' e Hin Hf Hs.
+    destruct (resolve_comps [] (split 47 path)) as [p|]; [|discriminate].
+    destruct (negb (fs_isdir p tmp)); [discriminate|].
+    eapply import_frame_step; [|exact Hf|exact Hs].
+    pose proof (analyse_ids _ _ _ _ _ _ _ Ea _ Hin) as Hid. simpl in Hid. rewrite Hid. apply job_id_shape.
+Qed.
+
+(* ---- directory crawl *)
+Lemma dir_visit_frame : forall o src rel sp st st' e d0,
+  import_frame d0 (is_dst st) -> dir_visit o src rel sp st = ROk (st', e) -> import_frame d0 (is_dst st').
+Proof.
+  intros o src rel sp st st' e d0 Hf H. unfold dir_visit in H.
+  destruct (str_mem (job_id_of o sp) (is_seen st)); [discriminate|].
+  destruct (copy_to_job_workspace o (fs_subtree (TARGET ++ rel) src) sp (job_id_of o sp) (is_dst st))
+    as [[d' e']| |] eqn:Ec; simpl in H; try discriminate.
+  inversion H; subst. simpl.
+  eapply import_frame_step; [apply job_id_shape|exact Hf|exact Ec].
+Qed.
+
+Lemma dir_crawl_frame : forall fuel o sch src d0 rel st,
+  import_frame d0 (is_dst (p_val st)) ->
+  import_frame d0 (is_dst (p_val (dir_crawl fuel o sch src rel st))).
+Proof.
+  induction fuel as [|fuel IH]; intros o sch src d0 rel st Hf; simpl; [exact Hf|].
+  destruct (p_exn st); [exact Hf|]. destruct (p_ood st); [exact Hf|].
+  destruct (dir_schema_fn o sch src rel) as [[sp|]| |]; simpl; try exact Hf.
+  - destruct (dir_visit o src rel sp (p_val st)) as [[s e]| |] eqn:Ev; simpl; try exact Hf.
+    eapply dir_visit_frame; eauto.
+  - match goal with |- context [fold_left ?f ?l st] => generalize l end.
+    intro l. revert st Hf. induction l as [|n l IHl]; simpl; intros st Hf; [exact Hf|].
+    apply IHl. match goal with |- context [match ?x with _ => _ end] => destruct x as [[c|]|] end; auto.
+Qed.
+
+Theorem import_dir_frame : forall o sch src d0, import_frame d0 (io_dst (import_dir o sch src d0)).
+Proof.
+  intros o sch src d0.
+  assert (E : io_dst (import_dir o sch src d0) =
+              if negb (fs_isdir TARGET src) then d0
+              else is_dst (p_val (dir_crawl (Datatypes.S (List.length src)) o sch src []
+                     {| p_exn := None; p_ood := false; p_val := {| is_dst := d0; is_seen := [] |} |}))).
+  { unfold import_dir. destruct (negb (fs_isdir TARGET src)); reflexivity. }
+  rewrite E. destruct (negb (fs_isdir TARGET src)); [apply import_frame_refl|].
+  apply dir_crawl_frame. apply import_frame_refl.
+Qed.
+
+(* ------------------------------------------------------------------ the two import theorems, for
+   directory and tar origins and EVERY schema, destination state and archive content *)
+Theorem import_never_overwrites_dir_tar : forall o sch a d0,
+  (match a with AZip _ => False | _ => True end) ->
+  forall id q, fs_exists (job_dir id) d0 = true -> is_prefix (job_dir id) q = true ->
+  fs_get q (io_dst (import_model o sch a d0)) = fs_get q d0.
+Proof.
+  intros o sch a d0 Ha id q Hex Hq. destruct a as [f|ms|ms]; simpl in *; [|tauto|].
+  - destruct (import_dir_frame o sch f d0) as [H _]. apply H with id; auto.
+  - destruct (import_tar_frame o sch ms d0) as [H _]. apply H with id; auto.
+Qed.
+
+Theorem import_contained_dir_tar : forall o sch a d0,
+  (match a with AZip _ => False | _ => True end) ->
+  forall q, fs_get q (io_dst (import_model o sch a d0)) <> fs_get q d0 ->
+  (q = WS /\ fs_get q d0 = None) \/ exists id, is_job_id id = true /\ is_prefix (job_dir id) q = true.
+Proof.
+  intros o sch a d0 Ha q Hq. destruct a as [f|ms|ms]; simpl in *; [|tauto|].
+  - destruct (import_dir_frame o sch f d0) as [_ H]. apply H. exact Hq.
+  - destruct (import_tar_frame o sch ms d0) as [_ H]. apply H. exact Hq.
+Qed.
+
+(* ================================================================== export_to_directory: containment *)
+(* the zone export may touch: below the target, or a (missing) parent directory of the target *)
+Definition in_zone (q : fpath) : bool := is_prefix TARGET q || is_prefix q TARGET.
+
+(* a destination is safe if every path os.makedirs / copytree will visit for it lies in the zone and
+   the job directory itself lies below the target *)
+Definition dst_safe (dst : str) : bool :=
+  let full := pjoin2 TARGET_STR dst in
+  let comps := filter (fun c => negb (is_empty c || str_eqb c dot)) (split 47 full) in
+  negb (starts_slash full)
+  && match resolve [] (dirname (normpath full)) with Some par => in_zone par | None => false end
+  && forallb (fun cs => match resolve_comps [] cs with Some q => in_zone q | None => false end) (lex_prefixes [] comps)
+  && match resolve_comps [] comps with Some p => is_prefix TARGET p | None => false end.
+
+(* outside the target: unchanged, or a missing parent of the target that has been created *)
+Definition export_frame (f g : fs) : Prop :=
+  forall q, is_prefix TARGET q = false ->
+            fs_get q g = fs_get q f \/ (is_prefix q TARGET = true /\ fs_get q f = None).
+
+Lemma export_frame_refl : forall f, export_frame f f.
+Proof. intros f q _. left. reflexivity. Qed.
+
+Lemma export_frame_trans : forall a b c, export_frame a b -> export_frame b c -> export_frame a c.
+Proof.
+  intros a b c H1 H2 q Hq. destruct (H1 q Hq) as [E1|[P1 E1]]; destruct (H2 q Hq) as [E2|[P2 E2]].
+  - left. congruence.
+  - right. split; auto. congruence.
+  - right. auto.
+  - right. auto.
+Qed.
+
+Lemma prefix_of_app_cases : forall (q a r : fpath), is_prefix q (a ++ r) = true ->
+  is_prefix q a = true \/ is_prefix a q = true.
+Proof.
+  induction q as [|x q IH]; intros a r H; [left; reflexivity|].
+  destruct a as [|y a]; [right; reflexivity|].
+  unfold is_prefix in *. simpl in *. destruct (str_eqb x y) eqn:E; [|discriminate].
+  rewrite (proj1 (str_eqb_eq x y) E), str_eqb_refl.
+  assert (Hxy : str_eqb y x = true) by (apply str_eqb_eq; symmetry; apply str_eqb_eq; exact E).
+  apply (IH a r). exact H.
+Qed.
+
+Lemma zone_prefix_closed : forall x q, in_zone x = true -> is_prefix q x = true ->
+  is_prefix TARGET q = false -> is_prefix q TARGET = true.
+Proof.
+  intros x q Hz Hq Hn. unfold in_zone in Hz. apply orb_true_iff in Hz. destruct Hz as [Hz|Hz].
+  - apply is_prefix_spec in Hz. destruct Hz as [r ->].
+    destruct (prefix_of_app_cases _ _ _ Hq) as [H|H]; [exact H|congruence].
+  - eapply is_prefix_trans; eauto.
+Qed.
+
+Lemma mkdir_p_export_frame : forall x f g, fs_mkdir_p x f = ROk g -> in_zone x = true -> export_frame f g.
+Proof.
+  intros x f g H Hz q Hq. destruct (fs_mkdir_p_spec _ _ _ H) as [Hadd Hoth].
+  destruct (in_dec fpath_eq_dec q (prefixes x)) as [Hin|Hnin].
+  - destruct (fs_get q f) as [n|] eqn:E; [left; apply Hadd; exact E|].
+    right. split; auto. apply in_prefixes in Hin. eapply zone_prefix_closed; eauto. tauto.
+  - left. apply Hoth. exact Hnin.
+Qed.
+
+Lemma lex_mkdirs_export_frame : forall l f g,
+  fold_left (fun acc cs => do g <- acc;
+               match resolve_comps (rev []) cs with
+               | None => ROod
+               | Some q => fs_mkdir_p q g
+               end) l (ROk f) = ROk g ->
+  forallb (fun cs => match resolve_comps [] cs with Some q => in_zone q | None => false end) l = true ->
+  export_frame f g.
+Proof.
+  induction l as [|cs l IH]; simpl; intros f g H Hs.
+  - inversion H. apply export_frame_refl.
+  - apply andb_true_iff in Hs. destruct Hs as [Hs1 Hs2].
+    destruct (resolve_comps [] cs) as [q|]; [|discriminate].
+    destruct (fs_mkdir_p q f) as [g1| |] eqn:Em.
+    + eapply export_frame_trans; [eapply mkdir_p_export_frame; eauto|]. apply IH; auto.
+    + rewrite fold_res_exn in H by reflexivity. discriminate.
+    + rewrite fold_res_ood in H by reflexivity. discriminate.
+Qed.
+
+Lemma forallb_removelast : forall A (p : A -> bool) l, forallb p l = true -> forallb p (removelast l) = true.
+Proof.
+  induction l as [|x l IH]; simpl; auto. intro H. apply andb_true_iff in H. destruct H as [H1 H2].
+  destruct l; simpl in *; auto. rewrite H1. simpl. apply IH. exact H2.
+Qed.
+
+Lemma export_dir_step_frame : forall f j dst g e,
+  export_dir_step f (j, dst) = ROk (g, e) -> dst_safe dst = true -> export_frame f g.
+Proof.
+  intros f j dst g e H Hs. unfold export_dir_step in H. unfold dst_safe in Hs.
+  set (full := pjoin2 TARGET_STR dst) in *.
+  repeat (apply andb_true_iff in Hs; destruct Hs as [Hs ?]).
+  rename H0 into Hp, H1 into Hlex, H2 into Hpar. apply negb_true_iff in Hs.
+  destruct (resolve [] (dirname (normpath full))) as [par|]; [|discriminate].
+  destruct (fs_mkdir_p par f) as [g1| |] eqn:Em; cbn [rbind] in H; try discriminate.
+  eapply export_frame_trans; [eapply mkdir_p_export_frame; eauto|].
+  unfold fs_copytree_lex in H. rewrite Hs in H.
+  set (comps := filter (fun c => negb (is_empty c || str_eqb c dot)) (split 47 full)) in *.
+  change (rev []) with (@nil str) in H.
+  destruct (resolve_comps [] comps) as [p|]; [|discriminate].
+  match type of H with (do g <- ?F; _) = _ => destruct F as [g2| |] eqn:EF end; cbn [rbind] in H; try discriminate.
+  assert (F2 : export_frame g1 g2).
+  { eapply lex_mkdirs_export_frame; [exact EF|]. apply forallb_removelast. exact Hlex. }
+  eapply export_frame_trans; [exact F2|].
+  destruct (fs_exists p g2).
+  - inversion H; subst. apply export_frame_refl.
+  - destruct (fs_mkdir_p p g2) as [h| |] eqn:Eh; cbn [rbind] in H; try discriminate.
+    inversion H; subst. clear H.
+    assert (Hz : in_zone p = true) by (unfold in_zone; rewrite Hp; reflexivity).
+    eapply export_frame_trans; [eapply mkdir_p_export_frame; eauto|].
+    intros q Hq. left. apply fold_set_other. intros e0 _ E. subst q.
+    assert (is_prefix TARGET (p ++ fst e0) = true).
+    { eapply is_prefix_trans; [exact Hp|apply is_prefix_app]. }
+    congruence.
+Qed.
+
+(* export_to_directory on an arbitrary initial file system [f] (which may contain the source project):
+   if every destination is safe, nothing outside the target changes - the target's missing parent
+   directories are created, that is all.  This gives export_contained and export_src_unchanged. *)
+Theorem export_dir_contained : forall jds f,
+  forallb (fun jd => dst_safe (snd jd)) jds = true ->
+  export_frame f (p_val (fold_partial2 export_dir_step jds f)).
+Proof.
+  intros jds f Hs.
+  apply (fold_partial2_inv _ _ (fun g => export_frame f g)).
+  - apply export_frame_refl.
+  - intros a [j dst] a' e Hin Ha Hstep. eapply export_frame_trans; [exact Ha|].
+    eapply export_dir_step_frame; eauto. rewrite forallb_forall in Hs. apply (Hs (j, dst) Hin).
+Qed.
+
+Corollary export_src_unchanged : forall jds f q n,
+  forallb (fun jd => dst_safe (snd jd)) jds = true ->
+  is_prefix TARGET q = false -> fs_get q f = Some n ->
+  fs_get q (p_val (fold_partial2 export_dir_step jds f)) = Some n.
+Proof.
+  intros jds f q n Hs Hq Hn. destruct (export_dir_contained jds f Hs q Hq) as [E|[_ E]]; congruence.
 Qed.
